@@ -21,35 +21,37 @@ import (
 
 // GenSpec is the JSON-able description of a genesis; every process derives the same genesis state from it.
 type GenSpec struct {
-	ChainID  string       `json:"chain_id"`
-	Accounts []GenAccount `json:"accounts"`
-	Nodes    []GenNode    `json:"nodes"`
-	Apps     []GenApp     `json:"apps"`
-	DAOOwner int          `json:"dao_owner"` // key index owning every ACL entry and the DAO
-	DAOCoins int64        `json:"dao_coins"`
+	ChainID string `json:"chain_id"`
+	// GenesisUnix: block time of height 0 (unix seconds); 0 = 2015-06-01 (before the real clock)
+	GenesisUnix int64        `json:"genesis_unix,omitempty"`
+	Accounts    []GenAccount `json:"accounts"`
+	Nodes       []GenNode    `json:"nodes"`
+	Apps        []GenApp     `json:"apps"`
+	DAOOwner    int          `json:"dao_owner"` // key index owning every ACL entry and the DAO
+	DAOCoins    int64        `json:"dao_coins"`
 	// parameter overrides (zero = module default)
-	BlocksPerSession      int64   `json:"blocks_per_session"`
-	MaxValidators         int64   `json:"max_validators"`
-	NodeUnstakingSecs     int64   `json:"node_unstaking_secs"`
-	AppUnstakingSecs      int64   `json:"app_unstaking_secs"`
-	DowntimeJailSecs      int64   `json:"downtime_jail_secs"`
-	SignedBlocksWindow    int64   `json:"signed_blocks_window"`
-	MinSignedPerWindowPct int64   `json:"min_signed_pct"`
-	SlashDowntimePct      int64   `json:"slash_downtime_pct"`   // percent * 1 (e.g. 1 = 1%)
-	SlashDoubleSignPct    int64   `json:"slash_doublesign_pct"` // percent
-	MaxJailedBlocks       int64   `json:"max_jailed_blocks"`
-	NodeMaxChains         int64   `json:"node_max_chains"`
-	DAOAllocation         int64   `json:"dao_allocation"`
-	ProposerAllocation    int64   `json:"proposer_allocation"`
-	RelaysToTokens        int64   `json:"relays_to_tokens"`
-	MaxApplications       int64   `json:"max_applications"`
-	AppMaxChains          int64   `json:"app_max_chains"`
-	SessionNodeCount      int64   `json:"session_node_count"`
-	ClaimSubmissionWindow int64   `json:"claim_submission_window"`
-	ClaimExpiration       int64   `json:"claim_expiration"`
-	MinimumNumberOfProofs int64   `json:"min_proofs"`
+	BlocksPerSession      int64    `json:"blocks_per_session"`
+	MaxValidators         int64    `json:"max_validators"`
+	NodeUnstakingSecs     int64    `json:"node_unstaking_secs"`
+	AppUnstakingSecs      int64    `json:"app_unstaking_secs"`
+	DowntimeJailSecs      int64    `json:"downtime_jail_secs"`
+	SignedBlocksWindow    int64    `json:"signed_blocks_window"`
+	MinSignedPerWindowPct int64    `json:"min_signed_pct"`
+	SlashDowntimePct      int64    `json:"slash_downtime_pct"`   // percent * 1 (e.g. 1 = 1%)
+	SlashDoubleSignPct    int64    `json:"slash_doublesign_pct"` // percent
+	MaxJailedBlocks       int64    `json:"max_jailed_blocks"`
+	NodeMaxChains         int64    `json:"node_max_chains"`
+	DAOAllocation         int64    `json:"dao_allocation"`
+	ProposerAllocation    int64    `json:"proposer_allocation"`
+	RelaysToTokens        int64    `json:"relays_to_tokens"`
+	MaxApplications       int64    `json:"max_applications"`
+	AppMaxChains          int64    `json:"app_max_chains"`
+	SessionNodeCount      int64    `json:"session_node_count"`
+	ClaimSubmissionWindow int64    `json:"claim_submission_window"`
+	ClaimExpiration       int64    `json:"claim_expiration"`
+	MinimumNumberOfProofs int64    `json:"min_proofs"`
 	SupportedChains       []string `json:"supported_chains"`
-	MaxEvidenceAgeSecs    int64   `json:"max_evidence_age_secs"`
+	MaxEvidenceAgeSecs    int64    `json:"max_evidence_age_secs"`
 }
 
 type GenAccount struct {
